@@ -384,6 +384,8 @@ def _define_raw_metadata(global_meta, composite_meta, include_meta,
     metadata = {}
     for key, value in all_meta.items():
         try:
+            if key == 'text':  # text is kept verbatim (e.g., "007")
+                raise ValueError
             value = float(value)
             if value.is_integer():
                 value = int(value)
